@@ -3,8 +3,8 @@
 proof:          coq/Pred/Props_C03.v over coq/Pred/Model.v (transcription of Context::subtype_of on Int/Nat refinement
                 types: cheap_supertype_of, the (Refinement, Refinement) arm of structural_supertype_of with the
                 possible_tps shortcut, is_super_pred_of + reduce_preds + try_cmp, the nominal path):
-                accept_sound, fuel_enough, window_complete, interval_den, and the *_refuted witnesses for the code
-                before each repair and for the known class
+                accept_sound, fuel_enough, no_panic, window_complete, interval_den, and the *_refuted witnesses for the
+                code before each repair and for the known class
 correspondence: generated predicate pairs are decided in-process by Context::subtype_of on refinement types built with
                 the real constructors (harness ergv-pred) and by the extracted model (identity order oracle; on a
                 disagreement the other oracles of perm_k are tried, since hash-set iteration order is not observable);
@@ -268,10 +268,10 @@ def run(ctx):
             if f.endswith(".json"):
                 cases.append(json.load(open(os.path.join(corpus, f)))["case"])
     ncorpus = len(cases)
-    for _ in range(ctx.scale(3000, 90000)):
+    for _ in range(ctx.scale(3000, 50000)):
         cases.append(gen_case(ctx.rng))
     # malformed stream: raw enum values on both sides (shapes no constructor produces: Or{}, And(True, x), Not(Not x), nested Or)
-    for _ in range(ctx.scale(500, 10000)):
+    for _ in range(ctx.scale(500, 6000)):
         pool = ctx.rng.choice(POOLS)
         cases.append([[11, c32.gen_raw(ctx.rng, 3, pool, atoms=False)], [11, c32.gen_raw(ctx.rng, 3, pool, atoms=False)],
                       ctx.rng.choice([0, 0, 1]), ctx.rng.choice([0, 0, 1])])
@@ -324,8 +324,8 @@ def run(ctx):
 
     # ---- end-to-end subset through the CLI (lowering of the sugar + the function-return form)
     e2e = [r for r in results[ncorpus:] if r["impl"] is not None and not r["foreign"] and program(r["case"])]
-    e2e_acc = [r for r in e2e if r["impl"] == 1][:ctx.scale(24, 300)]
-    e2e_rej = [r for r in e2e if r["impl"] == 0][:ctx.scale(24, 300)]
+    e2e_acc = [r for r in e2e if r["impl"] == 1][:ctx.scale(24, 120)]
+    e2e_rej = [r for r in e2e if r["impl"] == 0][:ctx.scale(24, 120)]
     corp = [r for r in results[:ncorpus] if program(r["case"])]
     sel = corp + e2e_acc + e2e_rej
     progs = [program(r["case"]) for r in sel]
